@@ -189,7 +189,7 @@ func init() {
 		{
 			ID:          "C17",
 			Rules:       []RuleUse{use("R-SCAN", "codec"), use("R-DRIVER", "codec"), use("R-ESCSET", "codec"), use("R-TABLES", "codec"), use("R-POOL", "codec"), use("R-POOLINIT", "codec"), use("R-KEYORDER", "codec"), use("R-NUM", "codec"), {Rule: "R-EFFECT", Bodies: []string{"codec"}}, {Rule: "R-GLOBALS", Bodies: []string{"codec"}}},
-			Explanation: "Decided for the embedded codec: R-SCAN + R-DRIVER (the syntax accepted by Valid/Compact/Indent/Unmarshal is exactly RFC 8259 — complete decision of the scanner automaton, see C16), and for the fork-added machinery: R-POOL + R-POOLINIT (the pooled decodeState/encodeState/scanner are transparent: never used after Put, never aliased by a result, every field a recycled state can expose is rewritten first — data, off, savedError, opcode, useNumber, the scanner's step/err/endTop/parseState/bytes, the encoder's buffer and ptrLevel — with reviewed idioms for errorContext, disallowUnknownFields, lastKeys, ptrSeen), R-ESCSET + R-TABLES (Compact, HTMLEscape and both string encoders escape exactly the documented byte sets with the documented spelling; the HTML-escaping switch changes nothing but {<,>,&}, and in compact additionally U+2028/9), R-KEYORDER (the key list reported for an object is its member names in document order: one unconditional append per member, before the value, in a call-local list), R-NUM (numbers keep their literal through decode and encode), R-EFFECT + R-GLOBALS on the codec (no write into caller-visible byte slices; tables such as safeSet/htmlSafeSet/hex are immutable).",
+			Explanation: "Decided for the embedded codec: R-SCAN + R-DRIVER (the syntax accepted by Valid/Compact/Indent/Unmarshal is exactly RFC 8259 — complete decision of the scanner automaton, see C16; the opcode the scanner reports for each byte equals the documented event, and compact drops exactly the bytes reported as scanSkipSpace or later while Indent skips exactly scanSkipSpace, so Compact and Indent change only insignificant whitespace plus the escaping substitutions of R-ESCSET), and for the fork-added machinery: R-POOL + R-POOLINIT (the pooled decodeState/encodeState/scanner are transparent: never used after Put, never aliased by a result, every field a recycled state can expose is rewritten first — data, off, savedError, opcode, useNumber, the scanner's step/err/endTop/parseState/bytes, the encoder's buffer and ptrLevel — with reviewed idioms for errorContext, disallowUnknownFields, lastKeys, ptrSeen), R-ESCSET + R-TABLES (Compact, HTMLEscape and both string encoders escape exactly the documented byte sets with the documented spelling; the HTML-escaping switch changes nothing but {<,>,&}, and in compact additionally U+2028/9), R-KEYORDER (the key list reported for an object is its member names in document order: one unconditional append per member, before the value, in a call-local list), R-NUM (numbers keep their literal through decode and encode), R-EFFECT + R-GLOBALS on the codec (no write into caller-visible byte slices; tables such as safeSet/htmlSafeSet/hex are immutable).",
 			NotDecided:  "equivalence with the standard library over all Go values and types (reflection-driven, value-level); Decoder/Encoder stream behaviour; round-trip of strings.",
 			Trusted:     commonTrusted, Assumptions: commonAssumptions,
 		},
